@@ -983,13 +983,28 @@ def _stage(ck: Ck, name: str, fn, *args, alarm: bool = True) -> None:
                      f'stage {name}: unexpected {type(e).__name__}: {e}\n' + traceback.format_exc()[-1500:], {'stage': name})
 
 
+def _view(fr):
+    """memoryview(frame): the buffer protocol reaches Frame.__buffer__ from Python 3.12 on (PEP 688); call it directly before"""
+    import sys
+    return memoryview(fr) if sys.version_info >= (3, 12) else fr.__buffer__(0)
+
+
 def paths_case(w: int, h: int, salt: int = 0) -> list[tuple[str, str]]:
     """Every way of writing the pixels of a w x h frame, every way of reading them: all must use the address map
     byte 4*(y*w + x) + c for (x, y, c) and accept exactly [0,w) x [0,h)."""
     import sys
-    import tkinter
     from array import array
     from srctools.vtf import VTF, ImageFormats
+    # optional third-party consumers: a sandbox without Pillow / Tk must not turn into an alarm (the paths are then not exercised)
+    try:
+        import tkinter
+    except Exception:       # noqa: BLE001
+        tkinter = None
+    try:
+        import PIL.Image    # noqa: F401
+        have_pil = True
+    except Exception:       # noqa: BLE001
+        have_pil = False
     out: list[tuple[str, str]] = []
     size = f'{w}x{h}'
     want = {(x, y): _colour(x, y, salt) for y in range(h) for x in range(w)}
@@ -1008,7 +1023,7 @@ def paths_case(w: int, h: int, salt: int = 0) -> list[tuple[str, str]]:
             fr[x, y] = px
 
     def w_buffer(fr):
-        mv = memoryview(fr)
+        mv = _view(fr)
         bad = []
         for (x, y), px in want.items():
             for c, v in enumerate(px):
@@ -1045,7 +1060,7 @@ def paths_case(w: int, h: int, salt: int = 0) -> list[tuple[str, str]]:
         return {(x, y): tuple(fr[x, y]) for (x, y) in want}
 
     def r_buffer(fr):
-        mv = memoryview(fr)
+        mv = _view(fr)
         if mv.shape != (h, w, 4):
             out.append(('pixel-path-buffer-shape-is-not-height-width-4', f'{size}: memoryview(frame).shape == {mv.shape}, expected {(h, w, 4)}'))
         res, bad = {}, []
@@ -1073,7 +1088,7 @@ def paths_case(w: int, h: int, salt: int = 0) -> list[tuple[str, str]]:
         return res
 
     def r_buffer_bytes(fr):
-        b = bytes(memoryview(fr))
+        b = bytes(_view(fr))
         return {(x, y): tuple(b[4 * (y * w + x):4 * (y * w + x) + 4]) for (x, y) in want} if len(b) == 4 * w * h else {}
 
     def r_pil(fr):
@@ -1165,6 +1180,10 @@ def paths_case(w: int, h: int, salt: int = 0) -> list[tuple[str, str]]:
             compare(name_w, 'the array itself', got, False)
         readers = {'getitem': r_getitem, 'buffer': r_buffer, 'buffer_bytes': r_buffer_bytes, 'to_PIL': r_pil, 'to_tkinter': r_tk,
                    'to_wx_image': r_wx('to_wx_image'), 'to_wx_bitmap': r_wx('to_wx_bitmap'), 'save_read': r_saved(vtf)}
+        if not have_pil:
+            del readers['to_PIL']
+        if tkinter is None:
+            del readers['to_tkinter']
         for name_r, rfn in readers.items():
             try:
                 got = _with_alarm(20, lambda: rfn(fr))
@@ -1244,6 +1263,13 @@ PATH_SHAPES = [(1, 1), (2, 1), (1, 2), (4, 1), (1, 4), (8, 1), (1, 8), (2, 8), (
 
 
 def search_paths(ck: Ck) -> None:
+    for mod in ('PIL.Image', 'tkinter'):
+        try:
+            __import__(mod)
+            ck.hist('pixel_path_optional_consumers', f'{mod}: exercised')
+        except Exception:       # noqa: BLE001
+            ck.hist('pixel_path_optional_consumers', f'{mod}: not installed, path not exercised')
+            ck.notes.append(f'{mod} is not importable here: the corresponding reader of the pixel-path oracle is skipped (the obligation about its site still holds)')
     for k, (w, h) in enumerate(PATH_SHAPES):
         salt = ck.rng.randrange(256)
         ck.count('pixel_path_cases', 5 * 8)
@@ -1981,7 +2007,7 @@ def run(ck: Ck) -> None:
                'container: small sizes, versions 7.2-7.5, cubemaps, depth, frames, 0-4 resources, sheets; distinct by configuration. '
                'cubemap save(version=) overrides: all 12 ordered pairs of versions, 1-3 frames, also on a lazily read object. '
                'full mip chains: six shapes (square and not) x two formats with mipmap_count set to the number of levels. '
-               'pixel paths: 15 shapes (12 non-square: Nx1, 1xN, 2x8, 8x2, 16x2 ...), every pixel given a distinct colour (random salt), '
+               'pixel paths: 15 shapes (13 non-square: Nx1, 1xN, 2x8, 8x2, 16x2 ...), every pixel given a distinct colour (random salt), '
                'written through each of 5 paths (setitem, buffer protocol, copy_from bytes / frame, lazy load of a saved file) and read '
                'through each of 9 (getitem, buffer index by index, bytes(memoryview), raw array, to_PIL, to_tkinter PPM, two wx '
                'converters on a stand-in module, save+read), plus out-of-range probes, allocation lengths, copy_from of frames of '
